@@ -342,7 +342,8 @@ pub fn write_pieces(s: &mut TcpStream, data: &[u8], pieces: &[usize], pause: Dur
         s.flush()?;
         pos += n;
         i += 1;
-        if !pause.is_zero() && pos < data.len() {
+        // pauses only between the first pieces: enough to split frames, bounded in time
+        if !pause.is_zero() && pos < data.len() && i <= 24 {
             std::thread::sleep(pause);
         }
     }
